@@ -298,7 +298,18 @@ class AbstractOnlineSpecification(AbstractSpecification):
 
     # forwarding pastify
     def pastify(self):
+        if isinstance(getattr(self, 'online_interpreter', None), AbstractDenseTimeOnlineInterpreter):
+            # the dense-time monitors have no next operators; the pastifier would remove
+            # them before the interpreter gets to reject them
+            for spec in self.ast.specs:
+                self._reject_next(spec)
         self.ast = self.pastifier.pastify(self.ast)
+
+    def _reject_next(self, node):
+        if type(node).__name__ in ('Next', 'StrongNext'):
+            raise RTAMTException('Next operator not implemented in STL dense-time monitor.')
+        for child in getattr(node, 'children', []):
+            self._reject_next(child)
 
     # forwarding to interpreter
     def update(self, *args, **kwargs):
